@@ -81,6 +81,17 @@ def run(tier, seed):
                         T.run('number_test_public', {'grid': grid, 'rates': rates, 'events': events, 'scale': scale,
                                                      'variance': tot * vf}, key=('pubNB', gname, fi, ne, scale, vf))
 
+    # ---- large observed catalogs through the public tests (counts up to 1e5 are part of the property: the
+    #      +-epsilon around the count must survive float rounding there)
+    gname, grid = sorted(oe.GRIDS.items())[0]
+    nc, nm = oe.grid_shape(grid)
+    for ne in ([20000] if quick else [16385, 20000, 65537, 100000]):
+        events = [[t % nc, t % nm] for t in range(ne)]
+        rates = [[float(ne) / (nc * nm)] * nm for _ in range(nc)]
+        T.run('number_test_public', {'grid': grid, 'rates': rates, 'events': events, 'scale': None}, key=('pubL', ne))
+        T.run('number_test_public', {'grid': grid, 'rates': rates, 'events': events, 'scale': None, 'variance': ne * 1.5},
+              key=('pubLNB', ne))
+
     # ---- catalog N-test: all multisets of sizes
     K = 3 if quick else 5
     for size in range(1, K + 1):
